@@ -160,6 +160,11 @@ fn real_main() {
             let o = poly::universe_omega(tier);
             println!("of which {} F-omega programs ({:.1}s)", o.len(), t.elapsed().as_secs_f64());
             let t = std::time::Instant::now();
+            let rc = poly::universe_rec(tier);
+            println!("of which {} record programs ({:.1}s), reference rejects {}", rc.len(), t.elapsed().as_secs_f64(), rc.iter().filter(|p| poly::synth_c(&poly::Scope::default(), p).is_err()).count());
+            for p in rc.iter().rev().step_by((rc.len() / 6).max(1)).take(6) {
+                println!("{}", poly::program(p, false).lines().last().map(|_| poly::pc(p, false)).unwrap_or_default());
+            }
             let vf = poly::universe_vfun(tier);
             println!("of which {} value-function programs ({:.1}s), reference rejects {}", vf.len(), t.elapsed().as_secs_f64(), vf.iter().filter(|p| poly::synth_c(&poly::Scope::default(), p).is_err()).count());
             for p in vf.iter().rev().step_by(vf.len().max(1) / 3 + 1).take(3) {
